@@ -39,9 +39,15 @@ type c19Case struct {
 	// Receive with its request side still open; it half-closes only after
 	// Receive has returned.
 	KeepOpen bool `json:"keep_open,omitempty"`
+	// Forward (unary, point 0): a gateway handler: it passes the *connect.Request
+	// it received to an upstream client and panics afterwards.
+	Forward bool `json:"forward,omitempty"`
 }
 
 func (k c19Case) key() string {
+	if k.Forward {
+		return fmt.Sprintf("%s/%s/%s/p%d/b%da%d/panicnil=%v/ret=%s/forwards-its-request", k.Proto, k.Kind, k.Value, k.Point, k.Before, k.After, k.PanicNil, k.Ret)
+	}
 	if k.KeepOpen {
 		return fmt.Sprintf("%s/%s/%s/p%d/b%da%d/panicnil=%v/ret=%s/request-kept-open", k.Proto, k.Kind, k.Value, k.Point, k.Before, k.After, k.PanicNil, k.Ret)
 	}
@@ -167,7 +173,7 @@ func c19RunMode(k c19Case, withRecover, returnInstead bool) c19Result {
 		}
 		return nil
 	}
-	h := NewHandler(k.Kind, func(ctx context.Context, s HStream) error {
+	h0 := NewHandler(k.Kind, func(ctx context.Context, s HStream) error {
 		if err := doPanic(0); err != nil {
 			return err
 		}
@@ -198,6 +204,20 @@ func c19RunMode(k c19Case, withRecover, returnInstead bool) c19Result {
 		}
 		return doPanic(2)
 	}, opts...)
+	var h http.Handler = h0
+	var upTr *memhttp.Transport
+	if k.Forward {
+		upstream := NewHandler(KUnary, func(ctx context.Context, s HStream) error { return s.Send(&BV{Value: []byte{'u'}}) })
+		upTr = &memhttp.Transport{Handler: upstream, Proto: 2, SyncCloseReq: true}
+		up := NewClient(upTr, Cfg{Proto: PConnect, Comp: CompNone})
+		h = connect.NewUnaryHandler(Procedure, func(ctx context.Context, req *connect.Request[BV]) (*connect.Response[BV], error) {
+			_, _ = up.CallUnary(ctx, req) // the very Request value this handler was given
+			if err := doPanic(0); err != nil {
+				return nil, err
+			}
+			return connect.NewResponse(&BV{Value: []byte{'h', 0}}), nil
+		}, opts...)
+	}
 	tr := &memhttp.Transport{Handler: h, Proto: 2, SyncCloseReq: true}
 	cl := NewClient(tr, Cfg{Proto: k.Proto, Comp: CompNone})
 	out.Guard = Guarded(func() {
@@ -366,6 +386,9 @@ func c19Cases(thorough bool) []c19Case {
 							}
 							for _, pn := range []bool{false, true} {
 								out = append(out, c19Case{Proto: p, Kind: kind, Value: v, Point: pt, Before: before, After: after, PanicNil: pn})
+								if kind == KUnary && pt == 0 && v != "none" && v != "none-err" {
+									out = append(out, c19Case{Proto: p, Kind: kind, Value: v, Point: pt, Before: before, After: after, PanicNil: pn, Forward: true})
+								}
 								if kind == KBidi && pt == 0 && v != "none" && before+after <= 1 {
 									out = append(out, c19Case{Proto: p, Kind: kind, Value: v, Point: pt, Before: before, After: after, PanicNil: pn, KeepOpen: true})
 								}
